@@ -461,6 +461,51 @@ def _lines_field(prog, fam: Family) -> str:
     raise AnalysisError("__len__ of the line files does not return len(self.<offset table>)")
 
 
+def _running_sum_scheme(f: Func, is_table, handle_var: str, init_seen, drop_ok: bool) -> Optional[str]:
+    """offsets as the running sum of the byte lengths of the lines iterated from the binary handle (no tell()):
+      end offsets    table = [0];  for L in h: table.append(table[-1] + len(L));  drop the last entry
+      start offsets  table = []; off = 0;  for L in h: table.append(off); off += len(L)            (nothing to drop)
+    returns a description when the builder is exactly one of the two, else None"""
+    loops = [n for n in walk_own(f.node) if isinstance(n, ast.For) and not n.orelse and isinstance(n.target, ast.Name)
+             and ((isinstance(n.iter, ast.Name) and n.iter.id == handle_var)
+                  or (isinstance(n.iter, ast.Call) and src(n.iter.func) == "iter" and len(n.iter.args) == 2
+                      and src(n.iter.args[0]) == f"{handle_var}.readline" and isinstance(n.iter.args[1], ast.Constant) and n.iter.args[1].value == b""))]
+    if len(loops) != 1:
+        return None
+    lp = loops[0]
+    L = lp.target.id
+    body = lp.body
+
+    def is_len_L(e):
+        return isinstance(e, ast.Call) and src(e.func) == "len" and len(e.args) == 1 and src(e.args[0]) == L
+
+    def app_of(st):
+        if isinstance(st, ast.Expr) and isinstance(st.value, ast.Call) and isinstance(st.value.func, ast.Attribute) \
+                and st.value.func.attr == "append" and is_table(st.value.func.value) and len(st.value.args) == 1:
+            return st.value.args[0]
+        return None
+    init_empty = isinstance(init_seen, ast.List) and not init_seen.elts
+    init_zero = isinstance(init_seen, ast.List) and len(init_seen.elts) == 1 and const_value(init_seen.elts[0]) == 0
+    if len(body) == 1 and init_zero and drop_ok:
+        a = app_of(body[0])
+        if isinstance(a, ast.BinOp) and isinstance(a.op, ast.Add):
+            for x, y in ((a.left, a.right), (a.right, a.left)):
+                if is_len_L(y) and isinstance(x, ast.Subscript) and is_table(x.value) and const_value(x.slice) == -1:
+                    return "end offsets: table[-1] + len(line) appended for every line of the binary handle, the last entry dropped"
+        return None
+    if len(body) == 2 and init_empty and not drop_ok:
+        a = app_of(body[0])
+        st = body[1]
+        if isinstance(a, ast.Name) and isinstance(st, ast.AugAssign) and isinstance(st.op, ast.Add) and isinstance(st.target, ast.Name) \
+                and st.target.id == a.id and is_len_L(st.value):
+            inits = [n for n in walk_own(f.node) if isinstance(n, ast.Assign) and len(n.targets) == 1 and isinstance(n.targets[0], ast.Name)
+                     and n.targets[0].id == a.id]
+            others = [n for n in walk_own(f.node) if isinstance(n, ast.AugAssign) and isinstance(n.target, ast.Name) and n.target.id == a.id and n is not st]
+            if len(inits) == 1 and const_value(inits[0].value, None) == 0 and not others and before(f.node, inits[0], lp):
+                return "start offsets: a running byte count appended before it is advanced by len(line), for every line of the binary handle"
+    return None
+
+
 def r9_index_source(prog, rep: Report, fam: Family):
     """a caller-supplied offset index (also an empty one) is never replaced by the self-built index"""
     rep.rule("C11.R9", "the caller's index is honoured: every call of the index builder is guarded by `<offsets> is None` (the parameter "
@@ -652,6 +697,14 @@ def r5_index(prog, rep: Report, fam: Family, rule: str = "C11.R5", only_binary: 
         else:
             rep.unrec(rule, f, "builder:binary", "the mode of the handle the index is built from was not found")
         return
+    if no_tell and binary and handle_var is not None:
+        c_ok = _running_sum_scheme(f, is_table, handle_var, init_seen, drop_ok)
+        if c_ok:
+            for role, msg in (("builder:binary", "index built from a binary handle"),
+                              ("builder:first-offset", c_ok), ("builder:loop", c_ok), ("builder:drop-last", c_ok)):
+                rep.ok(rule, f, role, msg)
+            scheme_b = "skip"
+            no_tell = False
     if no_tell:
         # offsets computed some other way (lengths of the lines read, a running sum ...): the only thing decided here is that
         # lengths / positions of a *text* handle are not byte offsets; the arithmetic itself is not read
